@@ -23,7 +23,7 @@ RULE = ('sweep: all labelled import digraphs (self imports allowed) over k<=2 (q
         'x failing module x failure stage {missing, reader error, lexical, syntax, truncated, empty file, duplicate symbol, unknown parent, bad reference, '
         'OID cycle, injected parser/symbol-table/generator error} x ignoreErrors x borrower yes/no; seeded: random graphs with several failures. '
         'distinct = distinct (status multiset, options, fault kinds, component counts, stage); non-trivial = every sweep world (one planted failure) and seeded worlds with a fault or >=2 modules')
-ASSUMPTIONS = ['multi-module files only in worlds without borrowers; names whose failure stems from a co-resident module (known finding D18, C07) count as failures for the write decision but their own status is not judged here']
+ASSUMPTIONS = ['a file with a module that fails the symbol-table stage is refused as a whole: the failure is that of the name the file was fetched as']
 SWEEP_SET = {'quick': 'digraphs k<=2 x module x 13 failure stages x ignoreErrors x borrower', 'thorough': 'digraphs k<=3 x module x 13 failure stages x ignoreErrors x borrower'}
 
 STAGES = ['missing', 'reader-error', 'lex', 'syntax', 'cut', 'empty', 'dupsym', 'unkparent', 'badref', 'oidcycle',
@@ -104,17 +104,10 @@ def failure_sets(t):
             if c.ok:
                 attempts[-1]['mods'].append(c.mib)
     for a in attempts:
-        fetch_ok.update(a['mods'])      # registered even if a later module of the same file failed
         if a['ok']:
             fetch_ok.add(a['name'])
-    # a module of a fetched file that never got through the symbol-table stage is a failure under its own name
-    sym_ok = set(c.mib for c in t.by('symtab.genCode') if c.ok)
+            fetch_ok.update(a['mods'])
     implicit = set()
-    for c in t.by('symtab.genCode'):
-        if not c.ok and c.mib not in sym_ok:
-            if c.mib not in fetch_tried:
-                implicit.add(c.mib)      # pysmi books this failure under the name the file was fetched as
-            fetch_tried.add(c.mib)
     t.implicit_failures = implicit
     # names that were needed but for which there is no source at all
     gen_fail = set(c.mib for c in t.by('codegen.genCode') if not c.ok)
@@ -145,16 +138,7 @@ def judge(t):
             V('C09.0-finished', 'compile() did not finish within the event budget', what='budget')
         return viol
     F, B, fresh = failure_sets(t)
-    # known finding D18 (see C07): in a multi-module file the failure of a co-resident module is booked under the
-    # lookup name although that module itself compiled; such names are failures for the write decision (clause 1)
-    # but their own status/writing is C07's business
-    cores = set()
-    for c in t.by('symtab.genCode'):
-        if not c.ok and c.ctx is not None and c.mib != c.ctx:
-            if any(d.ok and d.mib == c.ctx and d.ctx == c.ctx for d in t.by('symtab.genCode')):
-                cores.add(c.ctx)
-    if cores:
-        t.world.probe('coresident-failure-world')
+    cores = set()      # (D18 is repaired: no name is exempt any more)
     # ground truth: a module named in the IMPORTS text of a processed module that no source holds (and no borrower
     # supplied) is a failure even if the compiler never asked for it
     from verif.gen import mibgen as _mg
@@ -166,8 +150,8 @@ def judge(t):
     for ms in scn.get('files', {}).values():
         held.update(ms)
     supplied_b = set(c.mib for c in t.by('borrower.getData') if c.ok)
-    for c in t.by('symtab.genCode'):
-        sp = scn.get('modules', {}).get(c.mib) if c.ok else None
+    for (mname_, _x, _y) in [m for a_ in cs.attempts_of(t) if a_['ok'] for m in a_['mods']]:
+        sp = scn.get('modules', {}).get(mname_)
         if sp is not None and not scn.get('alias'):
             for d in _mg.declared_imports(sp):
                 if d not in held and d not in supplied_b and d not in F:
@@ -214,7 +198,7 @@ def judge(t):
     else:
         wfail = set(scn.get('writer_fail', ())) | set(c.mib for c in puts if not c.ok)
         for b in sorted(B):
-            if b in F or b in wfail or b in cores or (cores and not F):
+            if b in F or b in wfail or b in cores:
                 continue          # (with a D18 name around and no other failure known, the write decision is not judged)
             s = str(R.get(b))
             if s not in ('compiled', 'borrowed'):
@@ -270,9 +254,9 @@ def generate(rng, tier):
         if rng.random() < 0.5:
             scn['searchers'] = [{'flavour': rng.choice(['file', 'stub', 'realstub']), 'answers': {k_: 'fresh'}}] + scn.get('searchers', [])[:1]
             scn['options'].pop('rebuild', None)
-        scn['borrowers'] = []
-    if scn.get('borrowers') or (rng.random() < 0.5 and not (grp and scn['borrowers'] == [])):
-        # with borrowers D18 can replace a compiled module by a borrowed copy: keep those worlds single-module-per-file
+        if rng.random() < 0.5:
+            scn['borrowers'] = []
+    if rng.random() < 0.4 and not (grp and scn['borrowers'] == []):
         scn['files'] = {k: v for k, v in scn['files'].items() if k in scn.get('file_alias', {})}
         scn.pop('co_only', None)
     # make sure every generated module has at least a chance to be held somewhere
